@@ -6,7 +6,7 @@ usage: sensitivity.py <dir-with-*.diff or seeded/*/patch.diff> [--checks C01,C02
 """
 import subprocess, sys, os, glob, json, shutil, re
 V = "/verif"
-S = "/tmp/sens"
+S = os.environ.get("SENS_DIR", "/tmp/sens")
 ALL = ["C01","C02","C03","C04","C05","C06","C07","C08","C09","C10","C11","C12","C13","C15","C16","C17","C18"]
 
 def sh(cmd, cwd=None, timeout=3600):
